@@ -21,7 +21,7 @@ theorem C17_no_items_for_unmatched (W : World) (F : Family) (q : T)
 /-- in inherent mode a selected member's self type instantiates exactly to the queried self type -/
 theorem C17_self_type_exact (W : World) (F : Family) (m : Member) (s s' : T)
     (hh : m.blk.hdr = .node "ImplGroupId" [] [.node "None" [] [], s]) :
-    genSel W F m (.node "ImplGroupId" [] [.node "None" [] [], s']) → ∃ ρ, noEx ρ ∧ inst ρ s = s' := by
+    genSel W F m (.node "ImplGroupId" [] [.node "None" [] [], s']) → ∃ ρ, wkB ρ m.blk = true ∧ inst ρ s = s' := by
   intro h
   obtain ⟨ρ, h0, _, h2⟩ := C16_trait_args_exact W F m _ s _ s' hh h
   exact ⟨ρ, h0, h2⟩
@@ -33,10 +33,25 @@ def wr (lit : String) : T :=
     .node "GenericArgument::Const" [] [.node "Expr::Lit" [lit] []]]]
 def hdr (lit : String) : T := .node "ImplGroupId" [] [.node "None" [] [], wr lit]
 
-/-- headers that differ in a const argument have no common instance -/
-theorem no_common_instance (τ1 τ2 : Subst) (n1 : noEx τ1) (n2 : noEx τ2) : inst τ1 (hdr "1") ≠ inst τ2 (hdr "2") := by
+/-- headers that differ in a const argument have no common instance, whatever the two substitutions bind -/
+theorem no_common_instance (τ1 τ2 : Subst) : inst τ1 (hdr "1") ≠ inst τ2 (hdr "2") := by
   intro h
-  simp only [hdr, wr, inst_node τ1 n1, inst_node τ2 n2, instL] at h
+  simp only [hdr, wr] at h
+  rw [inst_other τ1 (by rfl), inst_other τ2 (by rfl)] at h
+  simp only [instL] at h
+  injection h with _ _ h
+  injection h with _ h
+  injection h with h _
+  rw [inst_other τ1 (by rfl), inst_other τ2 (by rfl)] at h
+  simp only [instL] at h
+  injection h with _ _ h
+  injection h with h _
+  rw [inst_other τ1 (by rfl), inst_other τ2 (by rfl)] at h
+  simp only [instL] at h
+  injection h with _ _ h
+  injection h with _ h
+  injection h with h _
+  rw [inst_gaConst, inst_gaConst, inst_leaf, inst_leaf] at h
   simp at h
 end Coexist
 
@@ -45,9 +60,9 @@ theorem C17_coexist (W : World) (F1 F2 : Family) (m1 m2 : Member) (q : T)
     (h1 : F1.hdr = Coexist.hdr "1") (h2 : F2.hdr = Coexist.hdr "2") :
     genSel W F1 m1 q → ¬ genSel W F2 m2 q := by
   apply C16_independent_instantiations
-  rintro ⟨τ1, τ2, n1, n2, h⟩
+  rintro ⟨τ1, τ2, _, _, h⟩
   rw [h1, h2] at h
-  exact Coexist.no_common_instance τ1 τ2 n1 n2 h
+  exact Coexist.no_common_instance τ1 τ2 h
 
 /-- non-vacuity: an inherent-mode family (`impl<T: Dispatch<Group = GroupA>> Wr<T, 1> { … }`) satisfying the decidable
     hypothesis of `C17_refines`, with the header used in `C17_coexist` -/
